@@ -6,10 +6,6 @@ RC = {"ok": "ROk", "locked": "RLocked", "watchonly": "RWatchOnly", "wrongpass": 
 KIND = {"p2sh": "KP2SH", "witness": "KWitness", "taproot": "KTaproot"}
 KT = {"priv": "CKPriv", "script": "CKScript", "pub": "CKPub"}
 
-# my own files, in dependency order (used only until the integrator lists them in _CoqProject)
-OWN_FILES = ["Generated/LockFacts.v", "Addr/Lock.v", "Addr/LockProofs.v", "Addr/LockCorr.v", "Properties/C05.v"]
-
-
 class Kind(str):
     """a violation kind that remembers its site (Check.shrink only receives the kind)"""
     site = "*"
@@ -115,7 +111,7 @@ def r_case(c):
 
 class C05(Check):
     ID = "C05"
-    RULE = ("real waddrmgr.Manager on a bbolt file (Create with FastScryptOptions, four default scopes). 8 fixed scenario histories "
+    RULE = ("real waddrmgr.Manager on a bbolt file (Create with FastScryptOptions, four default scopes). corpus/C05 replays + 9 fixed scenario histories "
             "+ n random histories of 13..26 main operations: Unlock with the right / a near-miss (trailing space, case, dropped first "
             "or last byte, doubled, empty) / an unrelated / a former passphrase, Lock, ChangePassphrase private and public (locked "
             "and unlocked, right and wrong old passphrase), restart (Open with right / wrong public passphrase), NewAccount, "
@@ -158,40 +154,76 @@ class C05(Check):
     def __init__(self):
         self._t_shrink = 0.0
 
-    # ---- development aid: my files are compiled by hand until they are listed in _CoqProject
+    # ---- development aid: until the integrator lists this property's files in
+    # coq/_CoqProject they are not built by `make`; compile them by hand right
+    # after the shared build step (no-op once they are listed).
+    OWN_DEPS = [("Generated/LockFacts.v", []),
+                ("Addr/Lock.v", []),
+                ("Addr/LockProofs.v", ["Addr/Lock.v"]),
+                ("Addr/LockCorr.v", ["Generated/LockFacts.v", "Addr/Lock.v"]),
+                ("Properties/C05.v", ["Generated/LockFacts.v", "Addr/Lock.v", "Addr/LockProofs.v", "Addr/LockCorr.v"])]
+
     def _dev_build(self):
-        listed = open(os.path.join(COQ, "_CoqProject")).read()
+        import vlib
+        coq = vlib.COQ
+        try:
+            listed = open(os.path.join(coq, "_CoqProject")).read()
+        except OSError:
+            return
         if "Addr/Lock.v" in listed:
             return
         with Lock("coq"):
-            ok, msg = regenerate()
-            if not ok:
-                log("extract failed: " + msg)
-                return
-            newer = False
-            for f in OWN_FILES:
-                src = os.path.join(COQ, f)
+            rebuilt = set()
+            for f, deps in self.OWN_DEPS:
+                src = os.path.join(coq, f)
                 vo = src[:-2] + ".vo"
                 if not os.path.exists(src):
                     continue
-                if newer or not os.path.exists(vo) or os.path.getmtime(vo) < os.path.getmtime(src):
-                    newer = True
-                    rc, out, err = sh(["timeout", "1200", "coqc", "-R", ".", "Verif", f], cwd=COQ, timeout=1300)
-                    if rc != 0:
-                        log("coqc %s failed: %s" % (f, (out + err)[-1500:]))
-                        # keep going: the property file check will report it
-                        try:
-                            os.remove(vo)
-                        except OSError:
-                            pass
+                stale = (not os.path.exists(vo)) or os.path.getmtime(vo) < os.path.getmtime(src)
+                for d in deps:
+                    dvo = os.path.join(coq, d[:-2] + ".vo")
+                    if d in rebuilt or not os.path.exists(dvo) or (os.path.exists(vo) and os.path.getmtime(vo) < os.path.getmtime(dvo)):
+                        stale = True
+                if not stale:
+                    continue
+                rc, out, err = sh(["timeout", "1200", "coqc", "-R", ".", "Verif", f], cwd=coq, timeout=1300)
+                rebuilt.add(f)
+                if rc != 0:
+                    # expected for Properties/C05.v on a tree without the seven behaviours
+                    log("coqc %s: %s" % (f, (out + err).strip()[-600:]))
+                    try:
+                        os.remove(vo)
+                    except OSError:
+                        pass
 
     def run(self, tier, seed, replay=None):
-        self._dev_build()
-        return super().run(tier, seed, replay)
+        import vlib
+        orig = vlib.ensure_coq
+
+        def ensure_then_dev_build():
+            r = orig()
+            self._dev_build()
+            return r
+        vlib.ensure_coq = ensure_then_dev_build
+        try:
+            return super().run(tier, seed, replay)
+        finally:
+            vlib.ensure_coq = orig
 
     def gen_args(self, tier, seed):
         n = self.N_QUICK if tier == "quick" else self.N_THOROUGH
-        return [["c05", "-n", str(n), "-seed", str(seed), "-tier", tier]]
+        pre = []
+        corpus = os.path.join(VERIF, "corpus", "C05")
+        if os.path.isdir(corpus):
+            # minimized replays of earlier findings run first
+            p = os.path.join(WORK, "corpus_C05.jsonl")
+            os.makedirs(WORK, exist_ok=True)
+            with open(p, "w") as out:
+                for f in sorted(os.listdir(corpus)):
+                    if f.endswith(".json"):
+                        out.write(json.dumps({"in": json.load(open(os.path.join(corpus, f)))["in"]}) + "\n")
+            pre.append(["c05", "-replay", p])
+        return pre + [["c05", "-n", str(n), "-seed", str(seed), "-tier", tier]]
 
     INTERESTING = ("private_probe_while_locked_or_watching", "unlock_wrong", "change_private_while_locked",
                    "change_private_while_unlocked", "restart", "convert", "lock")
@@ -231,12 +263,23 @@ class C05(Check):
         return dict(implementation_calls=calls, probe_calls=probes, snapshots_compared=snaps, result_classes=rcs,
                     facts_extracted=self._facts())
 
+    FACT_FIELDS = [("f_cache_checked", "cache_checked_for_lock"), ("f_lock_purges_cache", "lock_purges_key_cache"),
+                   ("f_lock_wipes_wscripts", "lock_wipes_witness_scripts"), ("f_lock_wipes_last", "lock_wipes_last_addrs"),
+                   ("f_unlock_skips_keyless", "unlock_skips_keyless_accounts"),
+                   ("f_keyless_not_queued", "keyless_addresses_not_queued"),
+                   ("f_change_rejects_empty", "change_rejects_empty_private")]
+
     def _facts(self):
-        try:
-            txt = open(os.path.join(COQ, "Generated", "LockFacts.v")).read()
-            return dict(re.findall(r"Definition (\w+) : bool := (\w+)\.", txt))
-        except OSError:
-            return {}
+        """the facts of the tree the harness was built from (same extractor as Generated/LockFacts.v)"""
+        if getattr(self, "_facts_cache", None) is None:
+            import extract_c05
+            res = extract_c05.extract(REPO)
+            self._facts_cache = {n: bool(res[n]) for _, n in self.FACT_FIELDS}
+        return self._facts_cache
+
+    def _facts_term(self):
+        f = self._facts()
+        return "{| " + "; ".join("%s := %s" % (fld, cbool(f[n])) for fld, n in self.FACT_FIELDS) + " |}"
 
     # ---- model evaluation
     def render_cases(self, cases):
@@ -244,9 +287,10 @@ class C05(Check):
 Local Open Scope N_scope.
 Definition cases : list tcase :=
 %s.
-Definition bad := Eval vm_compute in failures cases.
+Definition tree_facts : facts := %s.
+Definition bad := Eval vm_compute in failures_with tree_facts cases.
 Print bad.
-""" % clist(["\n " + r_case(c) for c in cases])
+""" % (clist(["\n " + r_case(c) for c in cases]), self._facts_term())
 
     def evaluate_model(self, cases):
         starts = list(range(0, len(cases), self.SHARD))
@@ -286,9 +330,9 @@ Print bad.
         text = """From Verif Require Import Base.Prelude Addr.Lock Addr.LockCorr.
 Local Open Scope N_scope.
 Definition c : tcase := %s.
-Definition at_div := Eval vm_compute in model_at the_facts (tc_nsc c) (init (tc_nsc c) (tc_pub c) (tc_priv c)) (tc_steps c) %d%%nat.
+Definition at_div := Eval vm_compute in model_at %s (tc_nsc c) (init (tc_nsc c) (tc_pub c) (tc_priv c)) (tc_steps c) %d%%nat.
 Print at_div.
-""" % (r_case(c), st)
+""" % (r_case(c), self._facts_term(), st)
         rc, out, err = coq_eval(self.ID, text, "explain")
         c["model_differs_at"]["model_says"] = re.sub(r"\s+", " ", (out or err))[-3000:]
 
